@@ -41,10 +41,27 @@ impl Store {
         op: &str,
         row: &R,
     ) -> Result<(), KipError> {
+        let entry = self.version_entry(cx, id, version, op, row)?;
+        self.element_versions()
+            .add_from(&entry)
+            .await
+            .map_err(db_error)?;
+        Ok(())
+    }
+
+    /// The version-log entry [`Store::record_version`] appends for `row`.
+    pub(crate) fn version_entry<R: super::write::Row + serde::Serialize>(
+        &self,
+        cx: &WriteContext,
+        id: ElementId,
+        version: u64,
+        op: &str,
+        row: &R,
+    ) -> Result<ElementVersionRow, KipError> {
         let encoded = serde_json::to_value(row).map_err(|err| {
             KipError::internal_error(format!("an element row failed to encode: {err}"))
         })?;
-        let entry = ElementVersionRow {
+        Ok(ElementVersionRow {
             _id: 0,
             space: cx.space.clone(),
             element: id.to_string(),
@@ -54,12 +71,7 @@ impl Store {
             tx_id: cx.tx_id.clone(),
             op: op.to_string(),
             row: encoded,
-        };
-        self.element_versions()
-            .add_from(&entry)
-            .await
-            .map_err(db_error)?;
-        Ok(())
+        })
     }
 
     /// Destroys every recorded version of one element.
